@@ -552,6 +552,10 @@ func execSeq(c SeqCase) (vh.Outcome, error) {
 				return out, vh.Errf("%s: reply of %d bytes, served agent returned %d bytes; not byte-identical", where, len(gotRaw), len(script.Reply))
 			}
 		}
+		// key objects the served agent was handed by earlier add-type calls must stay what they were
+		if cerr := rec.Corrupted(); cerr != nil {
+			return out, vh.Errf("%s: %v", where, cerr)
+		}
 	}
 	return out, nil
 }
